@@ -7,6 +7,12 @@
 int gen_c18_set_exit(int old_status, int new_status)
 {
 	exit_status = (enum exit_status_type)old_status;
-	set_exit_status((enum exit_status_type)new_status);
+	if (new_status != E_SUCCESS)
+		set_exit_status((enum exit_status_type)new_status);
+	return (int)exit_status;
+}
+
+int gen_c18_get_exit(void)
+{
 	return (int)exit_status;
 }
